@@ -582,7 +582,17 @@ func abstractRun(a *absCtx, r *ScenarioRun, drvDir string) ([]map[string]any, er
 			case "clean":
 				b, _ := base64.StdEncoding.DecodeString(e.Out)
 				sum := parseSummary(string(b))
-				if len(sum.Unknown) > 0 {
+				missing := 0
+				if d := sum.NFiles - len(sum.Files); d > 0 {
+					missing += d
+				}
+				if d := sum.NTests - len(sum.Tests); d > 0 {
+					missing += d
+				}
+				// lines without a rule make the summary unreadable for us -- unless more items are missing
+				// from the lists than there are such lines (they cannot all be reworded items): then items
+				// Clean counted are not listed, whatever the extra lines say
+				if len(sum.Unknown) > 0 && missing <= len(sum.Unknown) {
 					// Clean printed something this reader has no rule for: the summary cannot be judged
 					return nil, inconclusive("output of Clean not understood (scenario %s): %q", s.ID, sum.Unknown[0])
 				}
